@@ -115,4 +115,16 @@ EmitDone ==
     IF Len(h) >= MaxDepth \/ (Len(h) + Len(stack) >= MaxDepth)
     THEN IF stack = <<>> THEN PrintT(ToJson(h)) /\ FALSE ELSE TRUE
     ELSE TRUE
+
+\* state-coverage emission (used with VIEW view, so every distinct table /
+\* stack / clock state is visited once, by a shortest history): the history
+\* that reached the state plus the report of EVERY query in that state
+AllReports ==
+    [a \in BOOLEAN |-> [k \in Hist |-> Report(a, k)]]
+EmitState ==
+    IF stack = <<>> /\ order # <<>>
+    THEN PrintT(ToJson([h |-> h,
+            q |-> {[avg |-> a, k |-> k, exp |-> Report(a, k)] :
+                      a \in BOOLEAN, k \in Hist}]))
+    ELSE TRUE
 =============================================================================
